@@ -32,6 +32,42 @@ Proof. reflexivity. Qed.
 Example C13_trace_protect : map d_purpose (tr (exec (Protect 2 [1] 2) 0)) = [PIV; PSalt; PIV; PSalt]
   /\ map d_size (tr (exec (Protect 2 [1] 2) 0)) = [8; 8; 8; 8].
 Proof. split; reflexivity. Qed.
+(* protect with a cipher PGPy encrypts with: per key packet, in this order, an IV of the block size and a salt of 8 octets
+   (repair a3ce830 moved the two draws into a String2Key object built on the side: same calls, same order, same sizes) *)
+Theorem C13_accepted_protect_trace : forall c pass k n, can_protect c = true -> tr (exec (Protect c pass k) n) = protect_trace c k n.
+Proof. exact accepted_protect_trace. Qed.
+Print Assumptions C13_accepted_protect_trace.
+(* a refused protect has no output; IDEA / Twofish256 are refused by _encrypt after the first packet's IV and salt were
+   drawn (fresh cells, dropped with the unused specifier), Plaintext / non-ciphers before anything is drawn *)
+Theorem C13_refused_protect_trace : forall c pass k n, can_protect c = false ->
+  outs (exec (Protect c pass k) n) = [] /\
+  (tr (exec (Protect c pass k) n) = [] \/
+   tr (exec (Protect c pass k) n) = [ {| d_purpose := PIV; d_size := blk_octets c; d_cell := n |}; {| d_purpose := PSalt; d_size := 8; d_cell := S n |} ]).
+Proof. exact refused_protect_trace. Qed.
+Print Assumptions C13_refused_protect_trace.
+Example C13_trace_refused_protect : exec (Protect 1 [1] 3) 4 = ([], [ {| d_purpose := PIV; d_size := 8; d_cell := 4 |}; {| d_purpose := PSalt; d_size := 8; d_cell := 5 |} ], 6%nat)
+  /\ exec (Protect 0 [1] 3) 4 = ([], [], 4%nat) /\ map can_protect [0; 1; 2; 3; 4; 7; 8; 9; 10; 11; 12; 13] = [false; false; true; true; true; true; true; true; false; true; true; true].
+Proof. repeat split; reflexivity. Qed.
+
+(* a caller-supplied session key whose length is not the cipher's key size is refused before ANYTHING is drawn -- by the
+   passphrase path since repair 29ef9ad (SKESessionKeyV4.encrypt_sk: the guard precedes the salt), by the public-key path
+   before the ephemeral key pair *)
+Theorem C13_refused_key_draws_nothing : forall c pass k rcpt msg b enc n, Z.of_nat (length b) <> key_octets c ->
+  exec (EncPass c pass msg (Some b) enc) n = ([], [], n) /\ exec (EncKey c k rcpt msg (Some b) enc) n = ([], [], n).
+Proof. exact refused_key_draws_nothing. Qed.
+Print Assumptions C13_refused_key_draws_nothing.
+(* an encryption is carried out (has an output) exactly when no key was supplied or the supplied key fits *)
+Theorem C13_pass_accepted_iff_output : forall c pass msg sk enc n, sk_fits c sk = true <-> outs (exec (EncPass c pass msg sk enc) n) <> [].
+Proof. exact pass_accepted_iff_output. Qed.
+Print Assumptions C13_pass_accepted_iff_output.
+Theorem C13_key_accepted_iff_output : forall c k rcpt msg sk enc n, sk_fits c sk = true <-> outs (exec (EncKey c k rcpt msg sk enc) n) <> [].
+Proof. exact key_accepted_iff_output. Qed.
+Print Assumptions C13_key_accepted_iff_output.
+(* the rule before the repair drew the salt (and went on to label the message with a cipher it is not keyed for) *)
+Theorem C13_refused_key_old_refuted : exists c pass msg b enc n, Z.of_nat (length b) <> key_octets c /\
+  tr (exec_pass_old c pass msg (Some b) enc n) <> [].
+Proof. exact refused_key_old_refuted. Qed.
+Print Assumptions C13_refused_key_old_refuted.
 
 (* the i-th draw of a process takes cell n + i: cells strictly increase over any sequence of operations ... *)
 Theorem C13_cells_strictly_increasing : forall ops n, cells (traces ops n) = seq n (length (traces ops n)).
@@ -48,8 +84,8 @@ Proof. exact ops_disjoint. Qed.
 Print Assumptions C13_ops_disjoint.
 
 (* non-interference: which cells are drawn, for what, of what size, depends only on (cipher, recipient kind, whether a session
-   key was supplied, whether the message is already encrypted, number of key packets) -- never on message, passphrase,
-   recipient identity or the supplied key octets *)
+   key was supplied and whether its LENGTH is the cipher's key size, whether the message is already encrypted, number of
+   key packets) -- never on message, passphrase, recipient identity or the supplied key octets *)
 Theorem C13_draws_independent_of_message : forall ops1 ops2 n, map shape_of ops1 = map shape_of ops2 ->
   traces ops1 n = traces ops2 n /\ snd (run ops1 n) = snd (run ops2 n).
 Proof. exact draws_independent_of_message. Qed.
@@ -57,6 +93,9 @@ Print Assumptions C13_draws_independent_of_message.
 Example C13_same_shape : map shape_of [EncPass 9 [1] [2] None false; EncKey 7 KRsa 0 [3] (Some [4]) false]
                        = map shape_of [EncPass 9 [7; 7] [8; 8; 8] None false; EncKey 7 KRsa 5 [] (Some [9; 9]) false].
 Proof. reflexivity. Qed.
+Example C13_same_shape_refused : shape_of (EncPass 7 [1] [2] (Some [1; 2; 3]) false) = shape_of (EncPass 7 [5] [] (Some [9; 9; 9; 9]) false)
+  /\ shape_of (EncPass 7 [1] [2] (Some [1; 2; 3]) false) <> shape_of (EncPass 7 [1] [2] (Some (repeat 0 16)) false).
+Proof. split; [reflexivity | discriminate]. Qed.
 
 (* subterm lemma over whole sequences: a cell drawn as session key, prefix or ephemeral secret is readable in NO output of the
    sequence (it occurs only as key / plaintext of an encryption, under a key agreement, or as the public point) *)
